@@ -17,8 +17,8 @@ func init() {
 	register(&Rule{
 		Name:  "RESTORE",
 		IR:    "cfg",
-		Props: []string{"C13", "C37", "C16", "C12"}, // (C12: the rejected version is what lookups then show) a rejected replacement left in the map is also an invalid feature in the world (C37) and a phantom upper-layer version (C16)
-		Floor: 2,                                    // ingest.(*MutableOverlayWorld).AddFeature, ingest.(*BasicMutableWorld).AddFeature
+		Props: []string{"C13", "C37", "C16", "C12", "C03", "C15"}, // (C12: the rejected version is what lookups then show; C03/C15: it is in neither the search index nor the reference index, and hides the base version from both) a rejected replacement left in the map is also an invalid feature in the world (C37) and a phantom upper-layer version (C16)
+		Floor: 2,                                                  // ingest.(*MutableOverlayWorld).AddFeature, ingest.(*BasicMutableWorld).AddFeature
 		Doc: "where a function saves a map entry (old := M[k]), stores a temporary replacement (M[k] = x) and restores it (M[k] = old), " +
 			"every control-flow path from the temporary store to a normal exit of the function passes a restoring store",
 		Run: runRestore,
